@@ -1,7 +1,9 @@
 import functools
 import operator
 
-from dask_expr._util import _convert_to_list
+from fsspec.core import get_fs_token_paths
+
+from dask_expr._util import _convert_to_list, _tokenize_deterministic
 from dask_expr.io.io import BlockwiseIO, PartitionsFiltered
 
 
@@ -26,6 +28,24 @@ class ReadCSV(PartitionsFiltered, BlockwiseIO):
         "_series": False,
     }
     _absorb_projections = True
+
+    @functools.cached_property
+    def _name(self):
+        # A file that was rewritten is a different source
+        return (
+            self._funcname
+            + "-"
+            + _tokenize_deterministic(self.checksum, *self.operands)
+        )
+
+    @functools.cached_property
+    def checksum(self):
+        """Modification time, size, ... of the files, like the token of the
+        blocks in ``dask.bytes.read_bytes``"""
+        fs, _, paths = get_fs_token_paths(
+            self.filename, mode="rb", storage_options=self.storage_options
+        )
+        return [fs.ukey(path) for path in paths]
 
     @functools.cached_property
     def operation(self):
